@@ -1050,6 +1050,10 @@ def S6(ctx: Ctx) -> RuleResult:
         for name, fi in c.methods.items():
             if not _is_stub(fi):
                 continue
+            if name.startswith('_') and not name.startswith('__'):
+                # a private stub may be partial by design (asked only of the kinds of node its callers have established);
+                # the one private stub of the pinned tree, _get_next_token, is decided case by case in S10
+                continue
             for sub in ctx.model.subclasses(c, strict=True):
                 if not ctx.model.is_leaf(sub):
                     continue
@@ -1519,7 +1523,29 @@ def S10(ctx: Ctx) -> RuleResult:
         n += 1
         lw, root_var, lst, orient = walk_loop
         root = Opaque(f'loop:{root_var}')
-        def root_token(t: Term) -> Optional[str]:
+        def resolve_root(t: Term, want_: Optional[str]) -> Term:
+            """a method of the root node that the kinds of root implement differently (the type token asked of the node
+            itself): what the implementation for `this` / for an alias returns"""
+            if not (isinstance(t, Call) and call_recv(t) == root and call_name(t) is not None and not t.kwargs):
+                return t
+            impls = {}
+            for kind_, cname_ in (('this', 'HplThisMessage'), ('var', 'HplVarReference')):
+                k_ = m.classes.get(cname_)
+                f_ = k_.resolve(call_name(t)) if k_ is not None else None
+                if f_ is None or f_.kind != 'method' or len(f_.params()) - 1 != len(t.args):
+                    return t
+                o_ = ev.run(f_, dict(zip(f_.params(), (root,) + tuple(t.args))), self_cls=k_)
+                if len(o_) != 1 or o_[0].kind != 'return' or o_[0].guards:
+                    return t
+                impls[kind_] = o_[0].value
+            if impls['this'] == impls['var']:
+                return t
+            return impls[want_] if want_ in impls else Ite(Attr(root, 'is_this_msg'), impls['this'], impls['var'])
+
+        def root_token(t: Term, want_: Optional[str] = None) -> Optional[str]:
+            t2 = resolve_root(t, want_)
+            if t2 is not t:
+                return root_token(t2) if want_ is not None else 'any'
             if t == tm:
                 return 'this'
             if isinstance(t, Call) and call_name(t) == 'get' and t.args == (Attr(root, 'name'),) and (call_recv(t) == vs or type(call_recv(t)).__name__ == 'DictT'):
@@ -1537,7 +1563,8 @@ def S10(ctx: Ctx) -> RuleResult:
             if not guards_consistent(gs):
                 continue
             lits = dict(implied_literals(gs, 14))
-            none_tests = [((x, True), pol) for g, pol in lits.items() for x in [none_test(g)[0] if none_test(g) else None] if x is not None and root_token(x) is not None
+            want = 'this' if is_this else 'var'
+            none_tests = [((resolve_root(x, want), True), pol) for g, pol in lits.items() for x in [none_test(g)[0] if none_test(g) else None] if x is not None and root_token(x) is not None
                           for pol in [pol if none_test(g)[1] else not pol]]
             # the alias map is the one the caller gave (an empty one only when none was given)
             given = next(((none_test(g)[1] == pol) for g, pol in lits.items() if none_test(g) is not None and none_test(g)[0] == vs), None)
@@ -1600,6 +1627,8 @@ def S10(ctx: Ctx) -> RuleResult:
         if not final:
             r.fail('HplDataAccess.type_check_references:order', 'the accessors are resolved from the outermost inwards: the type of `a.b.c` must be found by resolving b in the type of a, then c in the type of a.b', where)
         init_t = next((v for k, v in l2.inits if root_token(v) is not None or isinstance(v, Ite)), None)
+        if init_t is not None and not isinstance(init_t, Ite):
+            init_t = resolve_root(init_t, want if is_this is not None else None)
         if isinstance(init_t, Ite):
             if not (init_t.test == Attr(root, 'is_this_msg') and root_token(init_t.a) == 'this' and root_token(init_t.b) == 'var'):
                 r.fail('HplDataAccess.type_check_references:root', f'the root type is {str(init_t)[:90]}, expected the current message for `this` and variables[name] for an alias', where)
